@@ -9,31 +9,46 @@ package di
 
 //@ func (*Container).Badger
 //@   requires nn: c != nil
+//@   modifies Container.*
 //@ func (*Container).Cleaner
 //@   requires nn: c != nil
+//@   modifies Container.*
 //@ func (*Container).ContentFileRepo
 //@   requires nn: c != nil
+//@   modifies Container.*
 //@ func (*Container).ContentRepo
 //@   requires nn: c != nil
+//@   modifies Container.*
 //@ func (*Container).Core
 //@   requires nn: c != nil
+//@   modifies Container.*
 //@ func (*Container).Dir
 //@   requires nn: c != nil
+//@   modifies Container.*
 //@ func (*Container).DirRepo
 //@   requires nn: c != nil
+//@   modifies Container.*
 //@ func (*Container).FileRepo
 //@   requires nn: c != nil
+//@   modifies Container.*
 //@ func (*Container).Gen
 //@   requires nn: c != nil
+//@   modifies Container.*
 //@ func (*Container).Pool
 //@   requires nn: c != nil
+//@   modifies Container.*
 //@ func (*Container).Rand
 //@   requires nn: c != nil
+//@   modifies Container.*
 //@ func (*Container).Store
 //@   requires nn: c != nil
+//@   modifies Container.*
 //@ func (*Container).StoreService
 //@   requires nn: c != nil
+//@   modifies Container.*
 //@ func (*Container).Transaction
 //@   requires nn: c != nil
+//@   modifies Container.*
 //@ func (*Container).TransactionRepo
 //@   requires nn: c != nil
+//@   modifies Container.*
